@@ -16,6 +16,14 @@ static std::map<std::string, Profile> build_profiles() {
         Profile p; p.name = "queue"; p.w_enqueue = 4; p.w_drain = 2; p.w_drain1 = 2; p.post_rate = 0.6; p.post_root = true;
         p.post_in_start = true; p.min_ops = 4; p.max_ops = 14; add(p);
     }
+    {   // the common subset compared across back-ends (C13): re-entrant submissions, enqueue API, drains
+        Profile p; p.name = "common"; p.w_enqueue = 4; p.w_drain = 2; p.w_drain1 = 2; p.post_rate = 0.5; p.post_root = true;
+        p.post_in_start = true; p.post_enqueue_sub = false; p.w_stopstart = 1; p.stop_when_drained = true; p.fault_on_completion_guard = false; p.min_ops = 4; p.max_ops = 14; add(p);
+    }
+    {   // the common subset with injected exceptions
+        Profile p; p.name = "common_throws"; p.w_enqueue = 2; p.w_drain = 1; p.post_rate = 0.25; p.post_root = true;
+        p.post_enqueue_sub = false; p.post_sub = false; p.throw_rate = 0.35; p.max_throws = 2; p.fault_on_completion_guard = false; p.min_ops = 4; p.max_ops = 14; add(p);
+    }
     {   // posts but no start-time posts, no enqueue from outside
         Profile p; p.name = "posts"; p.post_rate = 0.5; p.post_root = true; add(p);
     }
@@ -26,6 +34,9 @@ static std::map<std::string, Profile> build_profiles() {
     {   // deferral: public defer API + posts
         Profile p; p.name = "defer"; p.w_enqueue = 2; p.w_drain = 1; p.w_defer = 2; p.post_rate = 0.3; p.post_defer = true;
         p.cond_defer = true; p.min_ops = 5; p.max_ops = 18; add(p);
+    }
+    {   // deferral checked against the documented semantics only (no quirks): demonstrates known finding KF-2
+        Profile p; p.name = "defer_strict"; p.strict_model = true; p.min_ops = 5; p.max_ops = 14; add(p);
     }
     {   // fault injection: exceptions at every behaviour position (+ some posts)
         Profile p; p.name = "throws"; p.throw_rate = 0.35; p.max_throws = 2; p.post_rate = 0.25; p.w_enqueue = 2; p.w_drain = 1;
@@ -107,13 +118,15 @@ Plan generate_plan(const Desc& d, const Variant& v, const Profile& pf, uint64_t 
         bool want_posts = pf.post_rate > 0 && rng.chance(pf.post_rate * post_scale) && !postable.empty();
         bool want_throw = pf.throw_rate > 0 && rng.chance(pf.throw_rate * throw_scale);
         if (op.kind == OP_START && !pf.post_in_start) want_posts = false;
+        // what is submitted while stop() runs stays pending over the stop/start cycle: back-end specific, no property covers it
+        if (op.kind == OP_STOP && !pf.allow_reentrant) want_posts = false;
         if (op.kind == OP_START || op.kind == OP_STOP) want_throw = false;   // C12: "while an event is processed"
         if (!want_posts && !want_throw) return;
         // dry run on a copy of the model world: which callbacks does this op reach?
         World tmp(gw);
         size_t from = tmp.env.trace.size();
         tmp.exec(op, idx);
-        struct CbPos { uint8_t kind; int16_t site; int16_t nth; uint8_t aux; };
+        struct CbPos { uint8_t kind; int16_t site; int16_t nth; uint8_t aux; int8_t mach; };
         std::vector<CbPos> cbs;
         std::map<uint32_t, int> cnt;
         for (size_t i = from; i < tmp.env.trace.size(); ++i) {
@@ -122,7 +135,13 @@ Plan generate_plan(const Desc& d, const Variant& v, const Profile& pf, uint64_t 
             uint32_t key = ((uint32_t)r.kind << 16) | (uint16_t)r.site;
             int n = cnt[key]++;
             if (r.rep != op.on) continue;
-            cbs.push_back(CbPos{r.kind, r.site, (int16_t)n, r.aux});
+            // convention (DESIGN.md section 5): what the root machine's own entry behaviour submits to itself
+            // during start() is wiped by backmp11's pool reset on (no-history) entry; not generated
+            if (op.kind == OP_START && r.kind == K_N && r.site == (int)d.states.size()) continue;
+            // back re-evaluates completion guards after every handled event, backmp11 only on entry: the nth
+            // evaluation is not the same evaluation in both (C13 differential runs only)
+            if (!pf.fault_on_completion_guard && r.kind == K_G && r.site < (int)d.leaf_is_completion.size() && d.leaf_is_completion[r.site]) continue;
+            cbs.push_back(CbPos{r.kind, r.site, (int16_t)n, r.aux, r.mach});
         }
         if (cbs.empty()) return;
         if (want_posts) {
@@ -134,6 +153,7 @@ Plan generate_plan(const Desc& d, const Variant& v, const Profile& pf, uint64_t 
                 p.ev = (int16_t)postable[rng.below((uint32_t)postable.size())];
                 p.occ = occ++;
                 p.to_root = pf.post_root && rng.chance(0.3);
+                if (!pf.post_sub && c.mach != 0) p.to_root = 1;
                 uint32_t a = rng.below(10);
                 p.api = API_PROCESS;
                 if (pf.post_enqueue && a >= 6 && a < 9) p.api = API_ENQUEUE;
@@ -142,6 +162,9 @@ Plan generate_plan(const Desc& d, const Variant& v, const Profile& pf, uint64_t 
                 // re-entrantly in the middle of the enclosing machine's step (known finding KF-1)
                 bool target_busy = p.to_root ? (c.aux & 2) : (c.aux & 1);
                 if (p.api == API_PROCESS && !target_busy && !pf.allow_reentrant) p.api = API_ENQUEUE;
+                if (p.api == API_ENQUEUE && !pf.post_enqueue_sub && !p.to_root && c.mach != 0) {
+                    if (target_busy) p.api = API_PROCESS; else p.to_root = 1;
+                }
                 op.posts.push_back(p);
             }
         }
@@ -195,7 +218,7 @@ Plan generate_plan(const Desc& d, const Variant& v, const Profile& pf, uint64_t 
         struct W { int kind; int w; };
         std::vector<W> ws = {
             {OP_PROCESS, pf.w_process}, {OP_ENQUEUE, pf.w_enqueue}, {OP_DRAIN, pf.w_drain}, {OP_DRAIN1, pf.w_drain1},
-            {OP_DEFER, can_defer_api ? pf.w_defer : 0}, {OP_STOP, pf.w_stopstart},
+            {OP_DEFER, can_defer_api ? pf.w_defer : 0}, {OP_STOP, (pf.stop_when_drained && !queues_empty) ? 0 : pf.w_stopstart},
             {OP_COPY, (int)gw.reps.size() < pf.max_replicas ? pf.w_copy : 0},
             {OP_ASSIGN, live.size() > 1 ? pf.w_assign : 0},
             {OP_MOVE, mp && (int)gw.reps.size() < pf.max_replicas ? pf.w_move : 0},
